@@ -13,10 +13,11 @@ Qed.
 Lemma effective_exact_l v : o_wf v -> forall p,
   cv_get p (Some (encode_o v)) = option_map encode_o (o_get_vis p v).
 Proof.
-  induction v as [o z s|o fs IH] using otv_ind'; intros Hw p.
+  induction v as [o z s|o fs IH|o] using otv_ind'; intros Hw p.
+  3:{ destruct p as [|k r]; [reflexivity|]. cbn. apply cv_get_none. }
   - destruct p as [|k r]; [reflexivity|]. cbn. apply cv_get_none.
   - destruct p as [|k r]; [reflexivity|].
-    inversion Hw as [|? ? Hnd Hall]; subst.
+    inversion Hw as [|? ? Hnd Hall|]; subst.
     rewrite encode_o_rec. cbn [cv_get cv_lookup o_get_vis].
     destruct (lookup k fs) as [x|] eqn:El; cbn [opt_bind].
     + pose proof (lookup_in _ _ _ El) as Hin.
